@@ -412,6 +412,63 @@ func runC17(h *H) {
 				})
 		}
 	}
+	// a multi-byte length varint that straddles a refill of the reader's buffer (128 KiB steps): the first string's
+	// length is swept so that the next field's two-byte length lands on every offset around the boundary
+	for _, boundary := range []int{1 << 17, 2 << 17, 3 << 17} {
+		rev := revs[h.R.Intn(len(revs))]
+		second := strings.Repeat("s", 130+h.R.Intn(300))
+		sweep := func(name string, enc func(b *proto.Buffer, first string), dec func(r *proto.Reader) (string, string, error)) {
+			bad, firstBad := 0, ""
+			for l := boundary - 290; l <= boundary+8; l++ {
+				first := strings.Repeat("f", l)
+				var b proto.Buffer
+				enc(&b, first)
+				r := proto.NewReader(bytes.NewReader(b.Buf))
+				g1, g2, err := dec(r)
+				rest, _ := io.ReadAll(r)
+				if err != nil || g1 != first || g2 != second || len(rest) != 0 {
+					bad++
+					if firstBad == "" {
+						firstBad = fmt.Sprintf("first string of %d bytes: err=%v, strings equal=%v/%v, %d bytes left", l, err, g1 == first, g2 == second, len(rest))
+					}
+				}
+			}
+			oracle := "ok"
+			if bad > 0 {
+				oracle = fmt.Sprintf("FAIL:%s: decode of own encoding fails for %d of 299 string lengths around %d (a length field split by a buffer refill): %s", name, bad, boundary, firstBad)
+			}
+			h.Emit(fmt.Sprintf("refill %s %d %d", name, rev, boundary), "-", oracle)
+			h.Stat("msg.refill")
+		}
+		sweep("tablecolumns", func(b *proto.Buffer, first string) { (&proto.TableColumns{First: first, Second: second}).EncodeAware(b, rev) },
+			func(r *proto.Reader) (string, string, error) {
+				if _, err := r.UVarInt(); err != nil {
+					return "", "", err
+				}
+				var m proto.TableColumns
+				err := m.DecodeAware(r, rev)
+				return m.First, m.Second, err
+			})
+		sweep("exception", func(b *proto.Buffer, first string) {
+			(&proto.Exception{Code: 60, Name: first, Message: second, Stack: "s"}).EncodeAware(b, rev)
+		},
+			func(r *proto.Reader) (string, string, error) {
+				var m proto.Exception
+				err := m.DecodeAware(r, rev)
+				return m.Name, m.Message, err
+			})
+		sweep("serverhello", func(b *proto.Buffer, first string) {
+			(&proto.ServerHello{Name: first, Major: 300, Minor: 400, Revision: 54460, Timezone: second, DisplayName: "d", Patch: 500}).EncodeAware(b, 54460)
+		},
+			func(r *proto.Reader) (string, string, error) {
+				if _, err := r.UVarInt(); err != nil {
+					return "", "", err
+				}
+				var m proto.ServerHello
+				err := m.DecodeAware(r, 54460)
+				return m.Name, m.Timezone, err
+			})
+	}
 	// BlockInfo and block header
 	for i := 0; i < perMsg; i++ {
 		rev := revs[h.R.Intn(len(revs))]
